@@ -117,15 +117,17 @@ class FileResolver(Resolver):
                 path = path[len(lstrip_path) :]
                 break
 
+        # Prepend passed scheme prefix
+        # We do this first because the entries in existing_paths have the scheme
+        # affixed already.
+        path = scheme_prefix + path
+
         # Fail if left-stripping above results in duplicates
         if self._lstrip_paths and path in existing_paths:
             raise PrefixError(
                 "Prefix selection has resulted in non unique dictionary key "
                 f"'{path}'"
             )
-
-        # Prepend passed scheme prefix
-        path = scheme_prefix + path
 
         return path
 
